@@ -31,7 +31,10 @@ def nontrivial(prog, obs):
 def run(chk, gate, status):
     gens = make_cases(chk)
     chk.assumptions += ['observers rounded to display precision are compared within half a unit of the last displayed digit']
-    return histcheck.run(chk, gens, oracles.c10, 'C10', RULE, nontrivial)
+    cov = histcheck.run(chk, gens, oracles.c10, 'C10', RULE, nontrivial)
+    # under other configurations (separate processes): the cached volume against the contents, from the dumps
+    cov['operations_under_configuration_variants'] = histcheck.variants(chk, gens, oracles.c10, 'C10v', limit=10 if chk.tier == 'quick' else 60)
+    return cov
 
 
 def replay(path):
